@@ -69,6 +69,9 @@ class Intervals:
         # externally justified facts (function preconditions / object invariants), each backed by a named rule
         self.assume = assume if isinstance(assume, dict) else {}
         self.assume_fn = assume if callable(assume) else None
+        self.inv_facts = []        # proved loop invariants  phi <= len(slice argument), as canonical "le" facts
+        self._inv_done = set()
+        self._hyp = []
 
     # -------- guard facts at a block, as canonical linear inequalities
     def item_facts(self, atoms, b=None):
@@ -106,6 +109,25 @@ class Intervals:
                         if x.op == "agg" and x.args[0] == "core::ops::Range":
                             lo_t, hi_t = x.args[3]
                             la, ca = lin(hi_t)
+                            d = {a: 1}
+                            for p, q in la:
+                                d[p] = d.get(p, 0) - q
+                            out.append(("le", frozenset((p, q) for p, q in d.items() if q), 1 - ca))
+            if a.op == "field" and a.args[1] == 0 and a.args[0].op == "downcast" and a.args[0].args[1] == 1 and a.args[0].args[0].op == "call" \
+                    and isinstance(a.args[0].args[0].args[0], str) and libmodel.POSITION.fullmatch(a.args[0].args[0].args[0]):
+                # Some(p) = slice.iter().position(..):  p + 1 <= len(slice)
+                c = a.args[0].args[0]
+                if len(c.args) >= 4 and c.args[2] == id(self.fa.fn):
+                    src = libmodel.iterator_source(c, self.fa)
+                    if src is not None:
+                        x = src[0]
+                        chain = []
+                        while x.op == "call" and x.args[1]:
+                            chain.append(x.args[0])
+                            x = x.args[1][0]
+                        if chain == ["core::slice::<impl [T]>::iter"] and x.op == "ref":
+                            ln = self.fa.len_term(x.args[0])
+                            la, ca = lin(ln)
                             d = {a: 1}
                             for p, q in la:
                                 d[p] = d.get(p, 0) - q
@@ -175,6 +197,11 @@ class Intervals:
                 if a is not None:
                     iv = meet(iv, a) if iv is not None else a
             iv = self._refine(t, b, iv, depth)
+            if depth < 6 and iv is not None and rng is not None and rng[0] == 0 and iv[1] >= (1 << 62) and b is not None \
+                    and ((t.op == "bin" and t.args[0] == "Add") or t.op == "phi"):
+                ub = self.relational_upper(t, b)
+                if ub is not None and ub < iv[1]:
+                    iv = (iv[0], ub)
         finally:
             self.inprog.discard(key)
         self.memo[key] = iv
@@ -297,6 +324,15 @@ class Intervals:
             # relational fallback for x - y with a dominating y <= x
             if o == "Sub" and xr[0] == 0 and self.prove_le_terms(y, x, b):
                 return (0, 0)
+            if o == "Add" and xr[0] == 0 and ix[0] >= 0 and iy[0] >= 0 and depth < 6:
+                lx_, cx_ = lin(x)
+                ly_, cy_ = lin(y)
+                d_ = dict(lx_)
+                for p_, q_ in ly_:
+                    d_[p_] = d_.get(p_, 0) + q_
+                ub = self.relational_upper_lin(frozenset((p_, q_) for p_, q_ in d_.items() if q_), cx_ + cy_, b)
+                if ub is not None and ub <= xr[1]:
+                    return (0, 0)
             return (0, 1)
         if op == "len":
             return libmodel.len_interval(t, self, b)
@@ -551,7 +587,10 @@ class Intervals:
             return True
         # single-fact linear subsumption
         want = frozenset(atoms)
-        pool = list(self.item_facts([a for a, q in atoms], b))
+        for a, q in atoms:
+            if a.op == "phi" and q > 0:
+                self.phi_invariant(a)
+        pool = list(self.item_facts([a for a, q in atoms], b)) + list(self.inv_facts) + list(self._hyp)
         for c in pool:
             if c[1] == want and c[2] >= k:
                 return True
@@ -578,6 +617,84 @@ class Intervals:
                 if neg == want and -c[2] >= k:
                     return True
         return False
+
+    def slice_arg_lens(self):
+        """len(*arg) for every argument of the function that is a reference to a slice"""
+        out = []
+        f = self.fa.fn
+        for k in range(1, f.rec.get("argc", 0) + 1):
+            ty = f.locals[k]
+            if ty.get("k") == "ref" and ty.get("to", {}).get("k") == "slice":
+                out.append(self.fa.len_term(mk("mem", self.fa.start_val(k, 0))))
+        return out
+
+    def phi_invariant(self, t):
+        """Try to establish  t <= len(slice argument)  for a loop-header phi by induction over its operands."""
+        if t in self._inv_done:
+            return
+        self._inv_done.add(t)
+        ty = ty_of(t)
+        if not ty or ty.get("k") != "uint":
+            return
+        fa = self.fa
+        ops = list(fa.phi_operands(t))
+        if not ops or t.args[2] not in fa.fn.loops():
+            return
+        for L in self.slice_arg_lens():
+            la, ca = lin(L)
+            hyp = {t: 1}
+            for p_, q_ in la:
+                hyp[p_] = hyp.get(p_, 0) - q_
+            hfact = ("le", frozenset((p_, q_) for p_, q_ in hyp.items() if q_), -ca)
+            self._hyp.append(hfact)
+            ok = True
+            try:
+                for pb, v in ops:
+                    if v is t:
+                        continue
+                    if not self.prove_le_terms(v, L, pb):
+                        ok = False
+                        break
+            finally:
+                self._hyp.pop()
+            if ok:
+                self.inv_facts.append(hfact)
+                self.memo.pop((t, None), None)
+                return
+
+    def relational_upper(self, t, b):
+        """Upper bound of an unsigned sum from a relational fact  t + k <= len(..)  (None if there is none)."""
+        la, ca = lin(t)
+        return self.relational_upper_lin(la, ca, b)
+
+    def relational_upper_lin(self, la, ca, b):
+        atoms = [a for a, q in la]
+        for a in atoms:
+            if a.op == "phi":
+                self.phi_invariant(a)
+        best = None
+        cands = set()
+        for c in list(self.item_facts(atoms, b)) + list(self.inv_facts):
+            if c[0] == "le":
+                for a, q in c[1]:
+                    if q < 0 and (a.op == "len" or (a.op == "bin" and a.args[0] == "Sub")):
+                        cands.add(a)
+        for c in self.slice_arg_lens():
+            cands.add(c)
+        for L in cands:
+            li = self.interval(L, b)
+            if li is None:
+                continue
+            for k in (1, 0):
+                d = dict(la)
+                lb_, cb_ = lin(L)
+                for p_, q_ in lb_:
+                    d[p_] = d.get(p_, 0) - q_
+                if self.prove_le(list(d.items()), ca - cb_ + k, b):
+                    v = li[1] - k
+                    best = v if best is None else min(best, v)
+                    break
+        return best
 
     def prove_lt_terms(self, x, y, b):
         """x < y at block b"""
